@@ -107,21 +107,58 @@ Proof.
   destruct v as [|f [|p1 [|p2 [|p3 [|p4 r]]]]]; cbn [cv5_overflows]; try discriminate. intros _. eexists. reflexivity.
 Qed.
 
-Lemma cv_decode_p_dev v : cv_decode_p Dev v = cv_decode v.
-Proof. unfold cv_decode_p. destruct (cv_decode v); reflexivity. Qed.
-
-Lemma cv_decode_p_same pf v : cv5_overflows v = false -> cv_decode_p pf v = cv_decode v.
+(* what cv_decode_f does where cv_decode panics, for every form of the addition *)
+Lemma cv_decode_f_cases form pf v : cv_decode v = Panic ->
+  (form = 0 /\ pf = Dev /\ cv_decode_f form pf v = Panic) \/
+  (exists num r, cv5_num v = Some (num, r) /\ cv_decode_f form pf v = Ok (wrap32 (num + cv_thr_4), r) /\
+                 (form = 0 /\ pf = Release \/ form = 1)) \/
+  (form <> 0 /\ form <> 1 /\ cv_decode_f form pf v = Err).
 Proof.
-  intro H. unfold cv_decode_p. destruct (cv_decode v) eqn:E; try reflexivity.
+  intro E. unfold cv_decode_f. rewrite E.
+  destruct (cv5_overflows_num v (proj1 (cv_decode_panic_iff v) E)) as [[num r] Nm]. rewrite Nm.
+  destruct form as [|[p|p|]]; destruct pf.
+  - left. repeat split.
+  - right. left. exists num, r. repeat split. left. split; reflexivity.
+  - right. right. repeat split; discriminate.
+  - right. right. repeat split; discriminate.
+  - right. right. repeat split; discriminate.
+  - right. right. repeat split; discriminate.
+  - right. left. exists num, r. repeat split. right. reflexivity.
+  - right. left. exists num, r. repeat split. right. reflexivity.
+Qed.
+
+Lemma cv_decode_f_same form pf v : cv5_overflows v = false -> cv_decode_f form pf v = cv_decode v.
+Proof.
+  intro H. unfold cv_decode_f. destruct (cv_decode v) eqn:E; try reflexivity.
   apply cv_decode_panic_iff in E. congruence.
 Qed.
 
-Lemma cv_decode_p_release_safe v : cv_decode_p Release v <> Panic.
+Lemma cv_decode_f_release_safe form v : cv_decode_f form Release v <> Panic.
 Proof.
-  unfold cv_decode_p. destruct (cv_decode v) eqn:E; try discriminate.
-  apply cv_decode_panic_iff, cv5_overflows_num in E. destruct E as [[num r] E]. rewrite E.
-  change CV5_ADD_FORM with 0. cbv iota. discriminate.
+  destruct (cv_decode v) eqn:E; try (unfold cv_decode_f; rewrite E; discriminate).
+  destruct (cv_decode_f_cases form Release v E) as [(_ & X & _) | [(num & r & _ & X & _) | (_ & _ & X)]];
+    [discriminate | rewrite X; discriminate | rewrite X; discriminate].
 Qed.
+
+(* a repaired addition (wrapping_add or checked_add) cannot panic in either profile *)
+Lemma cv_decode_f_repaired_safe form pf v : form <> 0 -> cv_decode_f form pf v <> Panic.
+Proof.
+  intro Hf. destruct (cv_decode v) eqn:E; try (unfold cv_decode_f; rewrite E; discriminate).
+  destruct (cv_decode_f_cases form pf v E) as [(X & _) | [(num & r & _ & X & _) | (_ & _ & X)]];
+    [contradiction | rewrite X; discriminate | rewrite X; discriminate].
+Qed.
+
+Lemma cv_decode_f_dev0 v : cv_decode_f 0 Dev v = cv_decode v.
+Proof. unfold cv_decode_f. destruct (cv_decode v); reflexivity. Qed.
+
+Lemma cv_decode_p_dev v : cv_decode_p Dev v = cv_decode v.
+Proof. exact (cv_decode_f_dev0 v). Qed.
+
+Lemma cv_decode_p_same pf v : cv5_overflows v = false -> cv_decode_p pf v = cv_decode v.
+Proof. apply cv_decode_f_same. Qed.
+
+Lemma cv_decode_p_release_safe v : cv_decode_p Release v <> Panic.
+Proof. apply cv_decode_f_release_safe. Qed.
 
 Lemma cv_decode_p_dev_panic v : cv_decode_p Dev v = Panic <-> cv5_overflows v = true.
 Proof. rewrite cv_decode_p_dev. apply cv_decode_panic_iff. Qed.
@@ -142,15 +179,19 @@ Proof.
   destruct (add_u32 _ _); [|discriminate]. intro H. inversion H; subst. rewrite !Varint_proofs.lenN_cons. lia.
 Qed.
 
-Lemma cv_decode_p_consumes pf v n r : cv_decode_p pf v = Ok (n, r) -> lenN r < lenN v.
+Lemma cv_decode_f_consumes form pf v n r : cv_decode_f form pf v = Ok (n, r) -> lenN r < lenN v.
 Proof.
-  unfold cv_decode_p. destruct (cv_decode v) as [[n' r']| |] eqn:E.
-  - intro H. inversion H; subst. eapply cv_decode_consumes; eassumption.
-  - discriminate.
-  - change CV5_ADD_FORM with 0. cbv iota. destruct pf; [discriminate|].
-    destruct v as [|f [|p1 [|p2 [|p3 [|p4 t]]]]]; cbn [cv5_num]; try discriminate.
-    intro H. inversion H; subst. rewrite !Varint_proofs.lenN_cons. lia.
+  destruct (cv_decode v) as [[n' r']| |] eqn:E.
+  - unfold cv_decode_f. rewrite E. intro H. inversion H; subst. eapply cv_decode_consumes; eassumption.
+  - unfold cv_decode_f. rewrite E. discriminate.
+  - destruct (cv_decode_f_cases form pf v E) as [(_ & _ & X) | [(num & r0 & Nm & X & _) | (_ & _ & X)]]; rewrite X; try discriminate.
+    intro H. inversion H; subst.
+    destruct v as [|f [|p1 [|p2 [|p3 [|p4 t]]]]]; cbn [cv5_num] in Nm; try discriminate.
+    inversion Nm; subst. rewrite !Varint_proofs.lenN_cons. lia.
 Qed.
+
+Lemma cv_decode_p_consumes pf v n r : cv_decode_p pf v = Ok (n, r) -> lenN r < lenN v.
+Proof. apply cv_decode_f_consumes. Qed.
 
 (* ------------------------------------------------------------------ the string loop *)
 Lemma dec_cbytes_no_panic ptr : dec_cbytes ptr <> Panic.
@@ -217,37 +258,59 @@ Proof.
   - cbn [fst]. repeat constructor. cbn [names_alloc_ok]. lia.
 Qed.
 
-Lemma deser_names_alloc pf v : Forall (stream_alloc_ok (lenN v)) (fst (deser_sample_names_p pf v)).
+Lemma deser_f_alloc form pf v : Forall (stream_alloc_ok (lenN v)) (fst (deser_sample_names_f form pf v)).
 Proof.
-  unfold deser_sample_names_p. destruct (cv_decode_p pf v) as [[n r]| |] eqn:E; [| constructor | constructor].
-  apply cv_decode_p_consumes in E.
+  unfold deser_sample_names_f. destruct (cv_decode_f form pf v) as [[n r]| |] eqn:E; [| constructor | constructor].
+  apply cv_decode_f_consumes in E.
   eapply Forall_impl; [|apply dec_names_alloc]. intros a. destruct a; cbn [names_alloc_ok stream_alloc_ok]; lia.
 Qed.
 
-Lemma deser_names_release_safe v : snd (deser_sample_names_p Release v) <> O2panic.
+Lemma deser_f_safe_from form pf v : cv_decode_f form pf v <> Panic -> snd (deser_sample_names_f form pf v) <> O2panic.
 Proof.
-  unfold deser_sample_names_p. destruct (cv_decode_p Release v) as [[n r]| |] eqn:E.
+  intro H. unfold deser_sample_names_f. destruct (cv_decode_f form pf v) as [[n r]| |] eqn:E.
   - apply dec_names_safe.
   - cbn. discriminate.
-  - exfalso. exact (cv_decode_p_release_safe _ E).
+  - contradiction.
 Qed.
+
+Lemma deser_f_release_safe form v : snd (deser_sample_names_f form Release v) <> O2panic.
+Proof. apply deser_f_safe_from, cv_decode_f_release_safe. Qed.
+
+Lemma deser_f_repaired_safe form pf v : form <> 0 -> snd (deser_sample_names_f form pf v) <> O2panic.
+Proof. intro H. apply deser_f_safe_from, cv_decode_f_repaired_safe, H. Qed.
+
+Lemma deser_f_domain_safe form pf v : cv5_overflows v = false -> snd (deser_sample_names_f form pf v) <> O2panic.
+Proof.
+  intro H. apply deser_f_safe_from. rewrite cv_decode_f_same by assumption. intro E. apply cv_decode_panic_iff in E. congruence.
+Qed.
+
+Lemma deser_f_same form pf form' pf' v : cv5_overflows v = false ->
+  deser_sample_names_f form pf v = deser_sample_names_f form' pf' v.
+Proof. intro H. unfold deser_sample_names_f. rewrite !cv_decode_f_same by assumption. reflexivity. Qed.
+
+Lemma deser_names_alloc pf v : Forall (stream_alloc_ok (lenN v)) (fst (deser_sample_names_p pf v)).
+Proof. apply deser_f_alloc. Qed.
+
+Lemma deser_names_release_safe v : snd (deser_sample_names_p Release v) <> O2panic.
+Proof. apply deser_f_release_safe. Qed.
 
 Lemma deser_names_dev_panic_iff v : snd (deser_sample_names_p Dev v) = O2panic <-> cv5_overflows v = true.
 Proof.
-  unfold deser_sample_names_p. rewrite <- cv_decode_p_dev_panic.
+  unfold deser_sample_names_p, deser_sample_names_f. change (cv_decode_f CV5_ADD_FORM Dev v) with (cv_decode_p Dev v).
+  rewrite <- cv_decode_p_dev_panic.
   destruct (cv_decode_p Dev v) as [[n r]| |]; cbn [snd]; split; try discriminate; try reflexivity.
   intro H. exfalso. exact (dec_names_safe _ _ _ H).
 Qed.
 
 Lemma deser_names_same pf v : cv5_overflows v = false -> deser_sample_names_p pf v = deser_sample_names_p Dev v.
-Proof. intro H. unfold deser_sample_names_p. rewrite !cv_decode_p_same by assumption. reflexivity. Qed.
+Proof. apply deser_f_same. Qed.
 
-(* = Names.deser_sample_names (the C03 model of deserialize_sample_names, dev profile) *)
-Lemma deser_names_c03 v :
-  o2_outcome (snd (deser_sample_names_p Dev v)) = deser_sample_names v.
+(* = Names.deser_sample_names (the C03 model of deserialize_sample_names) wherever the count varint is in range *)
+Lemma deser_names_c03 form pf v : cv5_overflows v = false ->
+  o2_outcome (snd (deser_sample_names_f form pf v)) = deser_sample_names v.
 Proof.
-  unfold deser_sample_names_p, deser_sample_names. rewrite cv_decode_p_dev.
-  destruct (cv_decode v) as [[n r]| |]; cbn [obnd fst snd o2_outcome]; try reflexivity.
+  intro H. unfold deser_sample_names_f, deser_sample_names. rewrite cv_decode_f_same by assumption.
+  destruct (cv_decode v) as [[n r]| |] eqn:E; cbn [obnd fst snd o2_outcome]; try reflexivity.
   rewrite dec_names_strings. destruct (dec_strings (clamp n r) r) as [[ns r']| |]; reflexivity.
 Qed.
 
@@ -506,6 +569,14 @@ Proof.
 Qed.
 
 (* ------------------------------------------------------------------ open2: the theorems *)
+Lemma open2_f_unfold form pf mo zd file :
+  open2_f form pf mo zd file =
+  lbind (open_pre mo zd file) (fun st =>
+  lbind (deser_sample_names_f form pf (ps_stream st)) (fun ns =>
+  lret (mkHandle (ps_segment_size st) (ps_kmer_length st) (ps_min_match_len st)
+                 (coll_of_names (ps_segment_size st) (ps_kmer_length st) ns) (ps_reader st)))).
+Proof. reflexivity. Qed.
+
 Lemma open2_unfold pf mo zd file :
   open2 pf mo zd file =
   lbind (open_pre mo zd file) (fun st =>
@@ -513,6 +584,14 @@ Lemma open2_unfold pf mo zd file :
   lret (mkHandle (ps_segment_size st) (ps_kmer_length st) (ps_min_match_len st)
                  (coll_of_names (ps_segment_size st) (ps_kmer_length st) ns) (ps_reader st)))).
 Proof. reflexivity. Qed.
+
+(* what a repair of the addition buys: no panic in either profile, for all inputs *)
+Theorem open2_total_safe_if_repaired_proof : forall form, form <> 0 ->
+  forall pf max_off zd file, snd (open2_f form pf max_off zd file) <> O2panic.
+Proof.
+  intros form Hf pf mo zd file. rewrite open2_f_unfold. apply lbind_safe; [apply open_pre_safe|]. intros st _.
+  apply lbind_safe; [apply deser_f_repaired_safe; exact Hf|]. intros ns _. cbn. discriminate.
+Qed.
 
 Theorem open2_release_total_safe_proof : forall max_off zd file, snd (open2 Release max_off zd file) <> O2panic.
 Proof.
@@ -537,8 +616,8 @@ Theorem open2_total_safe_partial_proof : forall max_off zd file,
   (forall st, snd (open_pre max_off zd file) = O2ok st -> cv5_overflows (ps_stream st) = false) ->
   forall pf, snd (open2 pf max_off zd file) <> O2panic.
 Proof.
-  intros mo zd file H pf. destruct pf; [|apply open2_release_total_safe_proof].
-  intro P. apply open2_dev_panic_iff_proof in P. destruct P as (st & Hst & Hov). rewrite (H st Hst) in Hov. discriminate.
+  intros mo zd file H pf. rewrite open2_unfold. apply lbind_safe; [apply open_pre_safe|]. intros st Hst.
+  apply lbind_safe; [apply deser_f_domain_safe, H, Hst|]. intros ns _. cbn. discriminate.
 Qed.
 
 Theorem open2_profiles_agree_proof : forall max_off zd file,
@@ -604,7 +683,7 @@ Theorem open2_names_are_c03_decoder_proof : forall pf v,
                deserialize_sample_names (coll_new ss k) v.
 Proof.
   intros pf v H. split.
-  - rewrite (deser_names_same pf v H). apply deser_names_c03.
+  - apply deser_names_c03. exact H.
   - intros ss k. unfold deserialize_sample_names. destruct (deser_sample_names v); reflexivity.
 Qed.
 
@@ -993,7 +1072,8 @@ Qed.
 Theorem open2_loop_is_count_loop_proof : forall pf v count ptr, cv_decode_p pf v = Ok (count, ptr) ->
   deser_sample_names_p pf v = dec_names (N.to_nat count) 0 ptr.
 Proof.
-  intros pf v count ptr H. unfold deser_sample_names_p. rewrite H. unfold clamp.
+  intros pf v count ptr H. unfold deser_sample_names_p, deser_sample_names_f.
+  change (cv_decode_f CV5_ADD_FORM pf v) with (cv_decode_p pf v). rewrite H. unfold clamp.
   destruct (count <=? lenN ptr + 1) eqn:E.
   - rewrite N.min_l by lia. reflexivity.
   - rewrite N.min_r by lia. apply dec_names_beyond; unfold lenN in *; lia.
